@@ -399,7 +399,10 @@ class Indentation(afmformats.AFMForceDistance):
                               names=names,
                               lda=lda)
             rt = rater.rate(datasets=self)[0]
-            self._rating = (curhash, regressor, training_set, names, lda, rt)
+            # (store copies, such that changes made to the caller's
+            # objects afterwards are noticed in the comparison above)
+            self._rating = (curhash, regressor, copy.deepcopy(training_set),
+                            copy.deepcopy(names), lda, rt)
         else:
             # Use cached rating
             rt = self._rating[-1]
